@@ -12,6 +12,7 @@ mod c06;
 mod c07;
 mod c08;
 mod c09;
+mod c10;
 mod c13;
 mod c18;
 mod c19;
@@ -78,6 +79,7 @@ fn main() {
         "C07" => c07::run(&run),
         "C08" => c08::run(&run),
         "C09" => c09::run(&run),
+        "C10" => c10::run(&run),
         "C11" => wf::run_c11(&run),
         "C18" => c18::run(&run),
         "C20" => c20::run(&run),
